@@ -543,10 +543,20 @@ func (e *escaper) computeOutCtx(c context, t *template.Template) context {
 		// Use c1 as the error context if neither assumption worked.
 	}
 	if !ok && c1.state != stateError {
-		return context{
+		c1 = context{
 			state: stateError,
 			err:   errorf(ErrOutputContext, t.Tree.Root, 0, "cannot compute output context for template %s", t.Name()),
 		}
+	}
+	if c1.state == stateError {
+		// Forget the assumed output context, so that a later call of t is
+		// analysed, and fails, again instead of taking the fast path out of
+		// escapeTree with a context that was never confirmed.
+		delete(e.output, t.Name())
+	} else {
+		// Later calls of t take the fast path out of escapeTree: they must see
+		// the output context that was computed, not the one that was assumed.
+		e.output[t.Name()] = c1
 	}
 	return c1
 }
